@@ -28,10 +28,11 @@ STRATA = [
     ("anonymous", 200, 4000),
 ]
 REQUIRED_EVENTS = {"any": ["enc.cnf-captured", "enc.modelset-compared", "enc.exactly-one-checked", "enc.second-encoding-compared",
-                           "enc.extended-model-compared"]}
+                           "enc.extended-model-compared", "enc.decoded-enumeration-compared"]}
 
 _cp = _enc = None
 _rec = {}
+_pass = {"on": False}  # True: the recorder hands the CNF to the real solve_sat (used by the decoded-enumeration check)
 
 
 def setup():
@@ -42,7 +43,11 @@ def setup():
     _enc = mod("solvor.cp_encoder")
     types = mod("solvor.types")
 
+    real = _enc.solve_sat
+
     def recorder(clauses, **kw):
+        if _pass["on"]:
+            return real(clauses, **kw)
         _rec["clauses"] = [list(c) for c in clauses]
         _rec["kw"] = kw
         return types.Result(None, 0, 0, 0, types.Status.INFEASIBLE)
@@ -187,6 +192,44 @@ def _compare(spec, model, xs, S, named, obs, tag):
                         f"(|D|={len(D)}, |S|={len(S)})")
 
 
+def _decoded_enumeration(spec, model, S, named, obs):
+    """The same statement seen through the encoder's own decoding: an exhausted enumeration over the SAT path
+    (fewer solutions returned than asked for) must hand back exactly the CP solutions - as a set; one CP solution may
+    correspond to several CNF models when auxiliary variables are free."""
+    from vf.common import call, is_crash
+
+    nbool = max((abs(l) for c in _rec.get("clauses", ()) for l in c), default=0)
+    LIM = 120 if nbool <= 30 else 40  # enumeration with blocking clauses is quadratic; large encodings rarely exhaust anyway
+    _pass["on"] = True
+    try:
+        res = call(obs, model.solve, what="Model.solve(sat, enumerate)", budget=200_000_000, solver="sat", solution_limit=LIM)
+    finally:
+        _pass["on"] = False
+    if is_crash(res):
+        return
+    st = res.status.name
+    sols = list(res.solutions or ([] if res.solution is None else [res.solution]))
+    if st == "INFEASIBLE" or res.solution is None:
+        if S:
+            obs.violate("enc.decoded-infeasible-but-satisfiable", f"Model.solve(sat, solution_limit={LIM}) -> {st}; CP model has {len(S)} solutions")
+        obs.event("enc.decoded-enumeration-compared")
+        return
+    if len(sols) >= LIM:
+        obs.event("enc.decoded-enumeration-not-exhausted")
+        return
+    names = [spec["vars"][i][0] for i in named]
+    try:
+        D2 = {tuple(sol[nm] for nm in names) for sol in sols}
+    except (KeyError, TypeError) as e:
+        obs.violate("enc.decoded-solution-malformed", f"{e!r} in {sols[:2]}")
+        return
+    obs.event("enc.decoded-enumeration-compared")
+    if D2 != S:
+        extra, missing = sorted(D2 - S)[:3], sorted(S - D2)[:3]
+        obs.violate("enc.decoded-enumeration-differs", f"exhausted enumeration returned {len(sols)} solutions = {len(D2)} distinct over {names}; "
+                    f"CP solution set has {len(S)}; extra {extra}, missing {missing}")
+
+
 def run(case, obs):
     spec = case["spec"]
     if ocp.domain_product_size(spec) > 8192:
@@ -210,6 +253,15 @@ def run(case, obs):
     if not obs.violations:
         _compare(spec, model, xs, S, named, obs, "second encoding of the same model")
         obs.event("enc.second-encoding-compared")
+    if not obs.violations and len(S) <= 150 and case.get("decode_check", True):
+        # on a fresh build of the same spec: every encoding leaves auxiliary variables behind in the model, which does
+        # not change the projected model set but multiplies the CNF models the later comparisons have to enumerate
+        try:
+            fresh = ocp.build(spec, _cp.Model)[0]
+        except ocp.Unbuildable:
+            fresh = None
+        if fresh is not None:
+            _decoded_enumeration(spec, fresh, S, named, obs)
     ext = case.get("extend")
     if ext and not obs.violations:
         # the model is extended after it has been encoded (and "solved") twice: new variable, new constraint, and
